@@ -157,7 +157,11 @@ class ErrorHandling:
     def query_is_valid(self, tokens):
         # try to parse list of tokens
 
-        ast = self.parser.parse(iter(tokens))
+        try:
+            ast = self.parser.parse(iter(tokens))
+        except Exception:
+            # a made-up token (e.g. '[number]') can break a grammar action: not a valid suggestion
+            return False
         return ast is not None
 
 
